@@ -43,6 +43,46 @@ INFO = {
  "C19-m2": ("edge_vertices bound check off by one", "a vertex line of a space polygon deleted while a wall sits on that vertex"),
  "C20-m1": ("angle_sol_surf computes cos(tilt) as sqrt(1-sin^2)", "surfaces with tilt in (90, 180]"),
  "C20-m2": ("azimuth last branch sign slip", "afternoon sun north of the east-west line"),
+ "C01-m3": ("PropsOverrides::is_empty (the skip_serializing_if predicate) only looks at walls", "--use-extra on a project whose result files change a window factor but no wall U"),
+ "C01-m4": ("Meta gets a container-level serde(default): an omitted name loads as the default project name", "a project without name (empty nomPro)"),
+ "C02-m3": ("window constructions iterated from the database instead of looked up by used name", "a window whose GAP names a construction defined nowhere"),
+ "C02-m4": ("materials keyed by the raw block name while Material.name is normalised", "a material name with two consecutive blanks, used by a LAYERS block"),
+ "C03-m3": ("edge-normal azimuth rounded to 0.1 degree in the parser", "a long oblique wall located by SPACE-Vn"),
+ "C03-m4": ("vertex-defined shade counted as horizontal below 0.57 degrees of slope", "a large, nearly flat, upward-facing vertex shade"),
+ "C04-m3": ("Meta container-level serde(default) with per-field defaults removed", "a model with an empty project name"),
+ "C04-m4": ("PropsOverrides maps become HashMap", "two or more overrides of one kind and a text comparison"),
+ "C05-m3": ("construction absorptance written into the shared LAYERS object", "a second CONSTRUCTION with its own absorptance over layers that a plain construction also uses"),
+ "C05-m4": ("PropsOverrides maps become HashMap (per-instance iteration order)", "an export with result files (--use-extra) that yields two or more overrides of one kind"),
+ "C06-m3": ("ventilation term of the cond/uncond partition uses the multiplied volume", "an unconditioned neighbour with multiplier != 1 and ventilation"),
+ "C06-m4": ("basement slab regime chosen on d_t < B' instead of d_t + z/2 < B'", "a buried floor with small footprint and deep z"),
+ "C07-m3": ("window U clamped between glass and frame U ignoring dU", "dU > 0 with a mean close to the larger of U_g, U_f"),
+ "C07-m4": ("default solar factor derived from Glass::default (0.75) in EnergyProps", "a window construction with unresolved glass, read through props/indicators"),
+ "C08-m3": ("envelope membership of EXTERIOR/GROUND walls uses the INTERIOR rule", "an exterior or ground wall that still carries a next_to reference"),
+ "C08-m4": ("elements on the 5.7 fallback left out of category min/max", "an envelope element without computable U and without override"),
+ "C09-m3": ("C_o = 16 also when a blower-door value exists", "an existing building with a test value"),
+ "C09-m4": ("window pass of n50 drops the bounds == EXTERIOR filter", "a window hosted by a ground / adiabatic / interior envelope wall"),
+ "C10-m3": ("an override record without f_shobst forces F_sh;obst = 1", "a window with a U-only override and real shading"),
+ "C10-m4": ("zero-area guard tests !props.windows.is_empty()", "a model with windows none of which qualifies"),
+ "C11-m3": ("tilt classifier folded about 180 degrees", "a tilt that normalises to exactly 240"),
+ "C11-m4": ("compactness: ground-contact area without the space multiplier", "a multiplied space with a GROUND element"),
+ "C12-m3": ("occluders with 3 vertices dropped as degenerate", "a triangular wall or shade between a window and the sun"),
+ "C12-m4": ("occluders culled when their box centre is behind the facade plane", "an obstacle crossing the facade plane, mostly behind it, shading from its front part"),
+ "C13-m3": ("polygon bounding box from two transformed local corners", "a surface that is neither vertical nor turned by a multiple of 90 degrees"),
+ "C13-m4": ("tilt clamped to [0,180] in the placement matrix", "a set-back window on a leaning wall (sill / head reveal)"),
+ "C14-m3": ("NaN slips through the exposed-perimeter clamp", "a space with a ground floor and no side wall"),
+ "C14-m4": ("thermal_bridges of the props skipped when empty, without a serde default", "a model without thermal bridges whose result JSON is loaded back"),
+ "C15-m3": ("bridge length compared after rounding to centimetres", "a negative length above -0.005"),
+ "C15-m4": ("missing wall construction not reported when the wall has a U override", "dangling cons plus a user U on the same wall"),
+ "C16-m3": ("used day schedules found by expanding the calendar", "a week used for fewer than 7 days, one of whose day schedules never lands on a date"),
+ "C16-m4": ("frames of constructions with F_f = 0 treated as unused", "a used frameless construction whose frame nobody else uses"),
+ "C17-m3": ("week run-length encoding merges non-adjacent runs of the same day schedule", "a HULC week such as (I,V,I,I,I,V,V)"),
+ "C17-m4": ("occupied hours = max of per-schedule counts instead of the hour-wise OR", "two occupied spaces whose daily profiles overlap only partly"),
+ "C18-m3": ("numeric guard of AttrMap::insert forgets '+'", "a value written with a plus sign or a positive exponent sign"),
+ "C18-m4": ("SPACE Z replaced by the FLOOR Z instead of added", "a SPACE with its own non-zero Z"),
+ "C19-m3": ("multi-line list loop without the end-of-input branch", "a list whose closing line was deleted (hang)"),
+ "C19-m4": ("day_of_year via a 12-entry table indexed by month - 1", "a MONTH value of 0 or above 12 in a SCHEDULE-PD"),
+ "C20-m3": ("sun data memoised per (day, hour) without the latitude", "two latitudes evaluated in one thread"),
+ "C20-m4": ("December missing from a compile-time elapsed-days table", "any December date"),
 }
 res = {}
 try:
